@@ -1,7 +1,7 @@
 (** * C05 — divergence certificates: a canonical run that repeats a machine state never halts.
     (The backend side of C05 is validated per program against these certificates, see DESIGN §4.) *)
 From Coq Require Import ZArith List Bool.
-From HPBF Require Import Cell IO BF Machines MachineProofs.
+From HPBF Require Import Cell IO BF Machines MachineProofs BigStepProofs.
 Import ListNotations.
 
 (** if the certificate checker accepts (i, d) — the configurations after i and after i+d+1 steps
@@ -22,6 +22,15 @@ Theorem C05_equiv_runs : forall w e n c1 c2, fault_free e -> ceq e c1 c2 ->
   end.
 Proof. exact run_equiv. Qed.
 
+(** the stack machine the oracle runs and the fuel-indexed big-step definition of [BF.v] (the
+    specification) have the same terminating runs, for every program and environment; together
+    with [C05_state_repeat_diverges] this makes "the machine never halts" the same statement as
+    "no amount of big-step fuel produces a result" *)
+Theorem C05_oracle_is_spec : forall w e p o, terminal o ->
+  (exists f, bf_exec w e f p bf0 = o) <->
+  (exists n, bf_steps w e n {| c_ctl := p; c_kont := []; c_st := bf0 |} = o).
+Proof. exact big_step_machine. Qed.
+
 Example C05_nonvacuous :
   (* +[.-+] : prints 01 forever *)
   cert_ok 8 {| input := []; in_absent := false; in_fail_at := None; out_present := true; out_fail_at := None |}
@@ -30,3 +39,4 @@ Proof. vm_compute. reflexivity. Qed.
 
 Print Assumptions C05_state_repeat_diverges.
 Print Assumptions C05_equiv_runs.
+Print Assumptions C05_oracle_is_spec.
